@@ -27,10 +27,13 @@ CLAIMS = {
         note="float rounding of start+k*dt vs numpy.linspace is measured (1e-9), not proved. Closed loop: programs, derivative parameters, skip windows, several population types and transcendental functions are outside Closed.simulate (counted, not compared); exact rationals are cut at a bit budget and the computed prefix is compared.",
         design="8.C03"),
     "C06": dict(
-        technique="Lean 4 theorems about the TimeSeries interpolation model (Atomica.Series) + correspondence with TimeSeries.interpolate/insert (mode A)",
+        technique="Lean 4 theorems about the TimeSeries interpolation model (Atomica.Series) and a decision-logic model of the parameter pipeline (Atomica.Params) + correspondence with TimeSeries.interpolate/insert (mode A) and with every stored parameter value of real runs (mode C)",
         text="Proof (time-series half): interp_knot/between/outside/single/assumption, previous_knot/between/outside, insert_wf/insert_spec/clean_sorted, previous_prefix "
              "(+ needs-point witness) proved for all series; TimeSeries.interpolate (linear, previous) and insert are compared with the model on generated sparse series. "
-             "The parameter-pipeline half (function -> program -> limits order) is partial: covered by the engine/parameter correspondence where built.",
+             "Pipeline half: a decision-logic model of one parameter evaluation (Atomica.Params: data x calibration factors -> function of same-step values in execution order -> program outcome while programs are active -> "
+             "scenario skip windows -> limits) with precedence_program/function/data/skip/aggregation, data_scaled, clip_before_use, evalStep_fixpoint/evalStep_function_fixpoint/evalStep_clipped proved for every dependency graph "
+             "in topological order; every stored parameter value of generated, directed and library runs (with programs and parameter scenarios) is compared with it at every index, with direct oracles for programs, "
+             "initial-size scaling, ratio characteristics and 'All' databook rows.",
         note="pchip/callable interpolation methods and NaN request times are not modelled.",
         design="8.C06"),
     "C11": dict(
